@@ -14,7 +14,9 @@
    Msg.write; the imperative writers (PER, DER) are transliterated.  Strings are lists of
    Unicode scalar values; [utf8] is the in-memory form of a Rust String (what .len(), slicing and
    as_bytes() see), [utf16] what encode_utf16() yields, [utf16le] = model::unicode::to_unicode.
-   This is the model of the REPAIRED code (fix: commits for defects #22, #23, #24 of DESIGN.md).
+   This is the model of the REPAIRED code (fix: commits for defects #22, #23, #24 of DESIGN.md, and of
+   #25: the I/O channel id is the server's choice [i_io], the synchronize PDU targets the server's
+   channel id 1002).
    No proofs here. *)
 From RdpV Require Import Base Msg LayoutsGlobal LayoutsConnect Link Tpkt Global.
 Open Scope string_scope.
@@ -60,10 +62,9 @@ Record server_ids := mkIds {
   i_selected : N;           (* protocol selected in the connection confirm *)
   i_version : N;            (* rdpVersion of the server core data *)
   i_uid : N;                (* attach-user confirm *)
-  i_share : N               (* demand-active *)
+  i_share : N;              (* demand-active *)
+  i_io : N                  (* MCSChannelId of the server network data: the I/O channel *)
 }.
-
-Definition IO_CHANNEL : N := 1003.
 
 (* gcc::Version::from as it is in /repo today has its two arms swapped (defect #20, repaired by
    the C18 work): the client appends the extended info exactly when this says "5+".
@@ -211,8 +212,8 @@ Definition emit_channel_join (uid chan : N) : outcome bytes :=
 Definition emit_disconnect : outcome bytes := x224_frame [33; 128].
 
 (* mcs::Client::write on the I/O channel *)
-Definition mcs_send (uid : N) (message : bytes) : outcome bytes :=
-  x224_frame ([100] ++ be16 (uid - 1001) ++ be16 IO_CHANNEL ++ [112] ++ per_write_length (as_u16 (nlen message)) ++ message).
+Definition mcs_send (uid io : N) (message : bytes) : outcome bytes :=
+  x224_frame ([100] ++ be16 (uid - 1001) ++ be16 io ++ [112] ++ per_write_length (as_u16 (nlen message)) ++ message).
 
 (* ------------------------------------------------------------------ client info *)
 Definition INFO_FLAGS : N := 65875.   (* MOUSE | UNICODE | LOGONNOTIFY | LOGONERRORS | DISABLECTRLALTDEL | ENABLEWINDOWSKEY *)
@@ -255,11 +256,11 @@ Definition rdp_infos (ext : bool) (domain user password : ustring) (auto : bool)
 Definition emit_client_info (swapped : bool) (c : config) (i : server_ids) : outcome bytes :=
   obind (wr (MTrame [u16le SEC_INFO_PKT; u16le 0;
                      rdp_infos (is_rdp_version_5_plus swapped (i_version i)) (c_domain c) (c_user c) (c_password c) (c_autologon c)]))
-        (mcs_send (i_uid i)).
+        (mcs_send (i_uid i) (i_io i)).
 
 (* ------------------------------------------------------------------ activation, input (Global.v) *)
 Definition session_of (c : config) (i : server_ids) : session :=
-  mkSession SData (i_uid i) IO_CHANNEL (c_width c) (c_height c) (c_layout c) (Some (i_share i)) (utf8 (c_name c)).
+  mkSession SData (i_uid i) (i_io i) (c_width c) (c_height c) (c_layout c) (Some (i_share i)) (utf8 (c_name c)).
 
 (* Global.mcs_frame builds the frame without tpkt's size check *)
 Definition checked (o : outcome bytes) : outcome bytes :=
@@ -270,7 +271,7 @@ Definition emit_confirm_active (c : config) (i : server_ids) : outcome bytes :=
 
 Definition emit_finalize (c : config) (i : server_ids) : list (outcome bytes) :=
   let s := session_of c i in
-  [ checked (write_data_pdu p s PDUTYPE2_SYNCHRONIZE (ts_synchronize_pdu (channel_id s)));
+  [ checked (write_data_pdu p s PDUTYPE2_SYNCHRONIZE (ts_synchronize_pdu SERVER_CHANNEL));
     checked (write_data_pdu p s PDUTYPE2_CONTROL (ts_control_pdu CTRLACTION_COOPERATE));
     checked (write_data_pdu p s PDUTYPE2_CONTROL (ts_control_pdu CTRLACTION_REQUEST_CONTROL));
     checked (write_data_pdu p s PDUTYPE2_FONTLIST ts_font_list_pdu) ].
@@ -291,7 +292,7 @@ Definition emitted_session (swapped : bool) (c : config) (i : server_ids) (evs :
   [ emit_connect_initial c (i_selected i);
     emit_erect_domain;
     emit_attach_user;
-    emit_channel_join (i_uid i) IO_CHANNEL;
+    emit_channel_join (i_uid i) (i_io i);
     emit_channel_join (i_uid i) (i_uid i);
     emit_client_info swapped c i;
     emit_confirm_active c i ]
